@@ -9,7 +9,8 @@ func vhVV(maxChunks, maxLen int) VectorisedView {
 	size := 0
 	for i := 0; i < n; i++ {
 		l := vnChoice("chunklen", maxLen+1)
-		views[i] = View(vnBytes("chunk", l))
+		// the backing array may extend past the chunk (bytes a cap must keep hidden)
+		views[i] = View(vnBytes("chunk", l+vparam("slack", 0))[:l])
 		size += l
 	}
 	return NewVectorisedView(size, views)
@@ -82,6 +83,11 @@ func vh_vv_caplength() {
 	vassert(vhInv(vv), "CapLength keeps size == sum of chunk lengths")
 	vassert(vv.Size() == k, "CapLength(n) leaves min(n,size) bytes")
 	vassert(vhSame(vhFlat(vv), old[:k]), "CapLength(n) yields the first n bytes")
+	if n > 0 && n <= len(old) {
+		last := vv.views[len(vv.views)-1]
+		vassert(cap(last) == len(last), "a capped vectorised view cannot be re-extended beyond the cap (last chunk has cap == len)")
+		vreach("cap-sealed")
+	}
 	vreach("caplength")
 }
 
